@@ -18,6 +18,7 @@ import Mathlib.Tactic.Ring
 import Mathlib.Tactic.Linarith
 import Mathlib.Tactic.NormNum
 import Mathlib.Tactic.Positivity
+import Mathlib.Tactic.IntervalCases
 
 set_option exponentiation.threshold 3000
 
@@ -447,5 +448,44 @@ theorem sin_poly_rel_sin {r : ℝ} (hr : |r| ≤ 393 / 500) :
     linarith
   have h4 := mul_le_mul_of_nonneg_right h2 (by positivity : (0 : ℝ) ≤ 13 / 2 ^ 70)
   linarith
+
+/-! ## 4. shifting by multiples of `π/2` -/
+
+theorem quarter_split (ρ : ℝ) (k : ℤ) :
+    ρ + (k : ℝ) * (Real.pi / 2) = (ρ + ((k % 4 : ℤ) : ℝ) * (Real.pi / 2)) + ((k / 4 : ℤ) : ℝ) * (2 * Real.pi) := by
+  have h : (k : ℝ) = (((4 * (k / 4) + k % 4 : ℤ)) : ℝ) := by rw [Int.mul_ediv_add_emod]
+  rw [h]; push_cast; ring
+
+theorem sin_add_quarter (ρ : ℝ) (k : ℤ) :
+    Real.sin (ρ + (k : ℝ) * (Real.pi / 2)) =
+      if k % 4 = 0 then Real.sin ρ else if k % 4 = 1 then Real.cos ρ
+      else if k % 4 = 2 then -Real.sin ρ else -Real.cos ρ := by
+  rw [quarter_split, Real.sin_add_int_mul_two_pi]
+  have h0 := Int.emod_nonneg k (by norm_num : (4 : ℤ) ≠ 0)
+  have h4 := Int.emod_lt_of_pos k (by norm_num : (0 : ℤ) < 4)
+  generalize k % 4 = i at *
+  interval_cases i
+  · simp
+  · simp [Real.sin_add_pi_div_two]
+  · have : ρ + ((2 : ℤ) : ℝ) * (Real.pi / 2) = ρ + Real.pi := by push_cast; ring
+    rw [this, Real.sin_add_pi]; simp
+  · have : ρ + ((3 : ℤ) : ℝ) * (Real.pi / 2) = (ρ + Real.pi) + Real.pi / 2 := by push_cast; ring
+    rw [this, Real.sin_add_pi_div_two, Real.cos_add_pi]; simp
+
+theorem cos_add_quarter (ρ : ℝ) (k : ℤ) :
+    Real.cos (ρ + (k : ℝ) * (Real.pi / 2)) =
+      if k % 4 = 0 then Real.cos ρ else if k % 4 = 1 then -Real.sin ρ
+      else if k % 4 = 2 then -Real.cos ρ else Real.sin ρ := by
+  rw [quarter_split, Real.cos_add_int_mul_two_pi]
+  have h0 := Int.emod_nonneg k (by norm_num : (4 : ℤ) ≠ 0)
+  have h4 := Int.emod_lt_of_pos k (by norm_num : (0 : ℤ) < 4)
+  generalize k % 4 = i at *
+  interval_cases i
+  · simp
+  · simp [Real.cos_add_pi_div_two]
+  · have : ρ + ((2 : ℤ) : ℝ) * (Real.pi / 2) = ρ + Real.pi := by push_cast; ring
+    rw [this, Real.cos_add_pi]; simp
+  · have : ρ + ((3 : ℤ) : ℝ) * (Real.pi / 2) = (ρ + Real.pi) + Real.pi / 2 := by push_cast; ring
+    rw [this, Real.cos_add_pi_div_two, Real.sin_add_pi]; simp
 
 end TrigBound
